@@ -607,6 +607,257 @@ example : toyEnvL.coerce = coerceModel toyC ∧
       r.strategyUsed = some .lenient ∧ r.struct = some 7 ∧ r.coercions = [.coerced (0, .strToInt)] :=
   ⟨rfl, _, _, rfl, rfl, rfl, rfl, rfl⟩
 
+/-! ## User callbacks: co-chaperone preprocessors and `on_misfold`
+
+`Hooks.pre` is the co-chaperone registered for the target schema (if any), `Hooks.onMisfold` the instance's
+`on_misfold` when it is truthy; both are arbitrary functions that return or raise any exception class.
+`hk.Feeds raw t` (Lemmas): `t` is the text the strategies work on — `raw` itself without a co-chaperone, else what
+the co-chaperone returned for `raw`. -/
+
+/-- toy co-chaperone: deletes every `x`, refuses the text `?`; toy `on_misfold` callbacks that return / raise -/
+def toyPre : Text → Res Text := fun t => if t = [63] then .raise (.other 5) else .ok (t.filter (· != 120))
+def toyHooks : Hooks Nat Nat := ⟨some toyPre, some fun _ => .ok ()⟩
+def toyHooksRaising : Hooks Nat Nat := ⟨none, some fun _ => .raise (.other 6)⟩
+
+/-- A Chaperone without a co-chaperone for the schema and without a (truthy) `on_misfold` behaves exactly as the
+    model of the earlier sections: same report, same counters, same library calls, no callback invoked — so every
+    theorem above is a theorem about `fold` / `fold_enhanced` of such an instance. -/
+theorem c11_without_callbacks_nothing_changes (env : Env J S C) (cfg : Cfg) (st : Stats) (raw : Text)
+    (call : List Strategy) :
+    (∃ st' p, (fold env cfg st raw call).res = .ok (st', p) ∧
+      foldH env Hooks.absent cfg st raw call = ⟨st', [], (fold env cfg st raw call).trace, .ok p⟩) ∧
+    (∃ st' x, (foldX env cfg st raw call).res = .ok (st', x) ∧
+      foldXH env Hooks.absent cfg st raw call = ⟨st', [], (foldX env cfg st raw call).trace, .ok x⟩) := by
+  obtain ⟨tr, st', p, x, hp, hx, _, h1, h2, h3, h4, hcase⟩ :=
+    foldHBoth_spec env Hooks.absent cfg st raw raw call (Or.inl ⟨rfl, rfl⟩)
+  have hpr := (c11_raw_is_echoed env cfg st raw call).1 st' p (by rw [hp])
+  have hxr := (c11_raw_is_echoed env cfg st raw call).2 st' x (by rw [hx])
+  have hpe : p.echo raw = p := by cases p; simp [Folded.echo] at hpr ⊢; exact hpr.symm
+  have hxe : x.echo raw = x := by cases x; simp [FoldedX.echo] at hxr ⊢; exact hxr.symm
+  have hres : (foldH env Hooks.absent cfg st raw call).hooks = [] ∧
+      (foldXH env Hooks.absent cfg st raw call).hooks = [] ∧
+      (foldH env Hooks.absent cfg st raw call).res = .ok p ∧ (foldXH env Hooks.absent cfg st raw call).res = .ok x := by
+    rcases hcase with ⟨_, a, b, c, d⟩ | ⟨_, _, ⟨_, a, b, c, d⟩ | ⟨g, hg, _⟩⟩
+    · rw [hpe] at c; rw [hxe] at d; exact ⟨a, b, c, d⟩
+    · rw [hpe] at c; rw [hxe] at d; exact ⟨a, b, c, d⟩
+    · cases hg
+  obtain ⟨a, b, c, d⟩ := hres
+  constructor
+  · refine ⟨st', p, by rw [hp], ?_⟩
+    rw [hp]
+    cases hf : foldH env Hooks.absent cfg st raw call
+    rw [hf] at h1 h3 a c; simp at h1 h3 a c; subst h1 h3 a c; rfl
+  · refine ⟨st', x, by rw [hx], ?_⟩
+    rw [hx]
+    cases hf : foldXH env Hooks.absent cfg st raw call
+    rw [hf] at h2 h4 b d; simp at h2 h4 b d; subst h2 h4 b d; rfl
+
+/-- With a co-chaperone registered for the schema, `fold` / `fold_enhanced` of `raw` are `fold` / `fold_enhanced`
+    of the preprocessed text `t`: the same library calls, the same counters, and — when no callback raises — the
+    same report in every field except `raw_peptide_chain`, which echoes the text the caller passed. -/
+theorem c11_cochaperone_folds_the_preprocessed_text (env : Env J S C) (hk : Hooks S C) (cfg : Cfg) (st : Stats)
+    (raw t : Text) (call : List Strategy) (hfeeds : hk.Feeds raw t) :
+    ∃ st' p x, (fold env cfg st t call).res = .ok (st', p) ∧ (foldX env cfg st t call).res = .ok (st', x) ∧
+      (foldH env hk cfg st raw call).stats = st' ∧ (foldXH env hk cfg st raw call).stats = st' ∧
+      (foldH env hk cfg st raw call).trace = (fold env cfg st t call).trace ∧
+      (foldXH env hk cfg st raw call).trace = (foldX env cfg st t call).trace ∧
+      (∀ q, (foldH env hk cfg st raw call).res = .ok q → q = ⟨p.valid, p.struct, raw, p.err⟩) ∧
+      (∀ q, (foldXH env hk cfg st raw call).res = .ok q →
+        q = ⟨x.valid, x.struct, raw, x.err, x.attempts, x.confidence, x.coercions, x.strategyUsed⟩) := by
+  obtain ⟨tr, st', p, x, hp, hx, _, h1, h2, h3, h4, hcase⟩ := foldHBoth_spec env hk cfg st raw t call hfeeds
+  refine ⟨st', p, x, by rw [hp], by rw [hx], h1, h2, by rw [h3, hp], by rw [h4, hx], ?_, ?_⟩
+  · intro q hq
+    rcases hcase with ⟨_, _, _, c, _⟩ | ⟨_, _, ⟨_, _, _, c, _⟩ | ⟨g, _, _, _, c, _⟩⟩
+    · rw [c] at hq; cases hq; rfl
+    · rw [c] at hq; cases hq; rfl
+    · rw [c] at hq; split at hq
+      · cases hq; rfl
+      · cases hq
+  · intro q hq
+    rcases hcase with ⟨_, _, _, _, d⟩ | ⟨_, _, ⟨_, _, _, _, d⟩ | ⟨g, _, _, _, _, d⟩⟩
+    · rw [d] at hq; cases hq; rfl
+    · rw [d] at hq; cases hq; rfl
+    · rw [d] at hq; split at hq
+      · cases hq; rfl
+      · cases hq
+
+example : toyHooks.Feeds rawProse [123, 125] ∧
+    (foldXH toyEnv toyHooks (Cfg.new []) Stats.zero rawProse []).hooks.length = 1 ∧
+    ∃ q, (foldXH toyEnv toyHooks (Cfg.new []) Stats.zero rawProse []).res = .ok q ∧ q.valid = true ∧
+      q.strategyUsed = some .strict ∧ q.raw = rawProse ∧ q.struct = some 7 :=
+  ⟨Or.inr ⟨toyPre, rfl, rfl⟩, rfl, _, rfl, rfl, rfl, rfl, rfl⟩
+
+/-- 'valid' with callbacks: a report that `fold` / `fold_enhanced` hand out as valid carries the result of a
+    successful `model_validate d`, with `d` derived by one of the requested strategies from the text the strategies
+    worked on (the caller's text, or what the caller's own co-chaperone made of it); no error trace; the caller's raw
+    text is echoed. -/
+theorem c11_valid_is_validated_with_callbacks (env : Env J S C) (hk : Hooks S C) (cfg : Cfg) (st : Stats)
+    (raw t : Text) (call : List Strategy) (hfeeds : hk.Feeds raw t) :
+    (∀ q, (foldXH env hk cfg st raw call).res = .ok q → q.valid = true →
+      ∃ s ∈ effective cfg call, ∃ d v, q.struct = some v ∧ env.validate d = .ok v ∧ Derived env t s d ∧
+        q.strategyUsed = some s ∧ q.err = none ∧ q.raw = raw) ∧
+    (∀ q, (foldH env hk cfg st raw call).res = .ok q → q.valid = true →
+      ∃ s ∈ effective cfg call, ∃ d v, q.struct = some v ∧ env.validate d = .ok v ∧ Derived env t s d ∧
+        q.err = none ∧ q.raw = raw) := by
+  obtain ⟨st', p, x, hp, hx, _, _, _, _, hq1, hq2⟩ :=
+    c11_cochaperone_folds_the_preprocessed_text env hk cfg st raw t call hfeeds
+  constructor
+  · intro q hq hv
+    have := hq2 q hq
+    subst this
+    obtain ⟨s, hs, d, v, a, b, c, e, f, _⟩ := c11_valid_is_validated_enhanced env cfg st st' t call x hx hv
+    exact ⟨s, hs, d, v, a, b, c, e, f, rfl⟩
+  · intro q hq hv
+    have := hq1 q hq
+    subst this
+    obtain ⟨s, hs, d, v, a, b, c, e, _⟩ := c11_valid_is_validated env cfg st st' t call p hp hv
+    exact ⟨s, hs, d, v, a, b, c, e, rfl⟩
+
+/-- `on_misfold` (when set and truthy) is invoked exactly when the co-chaperone returned and every requested strategy
+    failed on the text it fed: never for a valid fold; for an invalid one exactly once, as the last callback, after all
+    library calls.  The report it is given is invalid, has no structure, the "All n folding strategies failed" trace,
+    confidence 0, no strategy, one failed attempt per requested strategy in order, and echoes the caller's raw text;
+    `fold` and `fold_enhanced` hand it the same report, and `fold_enhanced` returns that very report. -/
+theorem c11_on_misfold_gets_exactly_the_invalid_report (env : Env J S C) (hk : Hooks S C) (cfg : Cfg) (st : Stats)
+    (raw t : Text) (call : List Strategy) (hfeeds : hk.Feeds raw t) (g : FoldedX S C → Res Unit)
+    (hg : hk.onMisfold = some g) :
+    ∃ st' x, (foldX env cfg st t call).res = .ok (st', x) ∧
+      (x.valid = true →
+        (foldH env hk cfg st raw call).hooks = preHooks hk raw t ∧
+        (foldXH env hk cfg st raw call).hooks = preHooks hk raw t) ∧
+      (x.valid = false → ∃ rep : FoldedX S C,
+        (foldH env hk cfg st raw call).hooks = preHooks hk raw t ++ [.misfold rep (g rep)] ∧
+        (foldXH env hk cfg st raw call).hooks = preHooks hk raw t ++ [.misfold rep (g rep)] ∧
+        rep.valid = false ∧ rep.struct = none ∧ rep.err = some (.allFailed (effective cfg call).length) ∧
+        rep.confidence = 0 ∧ rep.strategyUsed = none ∧ rep.raw = raw ∧
+        rep.attempts.map (·.strategy) = effective cfg call ∧ (∀ a ∈ rep.attempts, a.success = false) ∧
+        (∀ q, (foldXH env hk cfg st raw call).res = .ok q → q = rep)) := by
+  obtain ⟨tr, st', p, x, hp, hx, _, _, _, _, _, hcase⟩ := foldHBoth_spec env hk cfg st raw t call hfeeds
+  refine ⟨st', x, by rw [hx], ?_, ?_⟩
+  · intro hv
+    rcases hcase with ⟨_, a, b, _, _⟩ | ⟨hv', _⟩
+    · exact ⟨a, b⟩
+    · rw [hv] at hv'; cases hv'
+  · intro hv
+    rcases hcase with ⟨hv', _⟩ | ⟨_, hshape, ⟨hn, _⟩ | ⟨g', hg', a, b, _, d⟩⟩
+    · rw [hv] at hv'; cases hv'
+    · rw [hg] at hn; cases hn
+    · rw [hg] at hg'; cases hg'
+      refine ⟨x.echo raw, a, b, ?_, ?_, ?_, ?_, ?_, rfl, ?_, ?_, ?_⟩
+      · exact hv
+      · rw [hshape]; rfl
+      · rw [hshape]; rfl
+      · rw [hshape]; rfl
+      · rw [hshape]; rfl
+      · rw [hshape]; simp [FoldedX.echo, misfoldReport, failRec, Function.comp_def]
+      · rw [hshape]; intro a ha; simp [FoldedX.echo, misfoldReport, failRec] at ha; obtain ⟨s, _, rfl⟩ := ha; rfl
+      · intro q hq
+        rw [d] at hq
+        split at hq
+        · cases hq; rfl
+        · cases hq
+
+example : ∃ rep, (foldH toyEnv toyHooks (Cfg.new []) Stats.zero rawBad [.strict, .repair]).hooks =
+      [.pre rawBad (.ok rawBad), .misfold rep (.ok ())] ∧ rep.attempts.length = 2 ∧ rep.raw = rawBad :=
+  ⟨_, rfl, rfl, rfl⟩
+
+/-- "No raw text makes folding raise", with callbacks: an exception leaves `fold` / `fold_enhanced` only when a user
+    callback raised it — the co-chaperone on the raw text, or `on_misfold` on the report of an invalid fold — and it is
+    that exception.  With callbacks that return, both methods return a report for every raw text and every library
+    behaviour. -/
+theorem c11_only_a_user_callback_makes_folding_raise (env : Env J S C) (hk : Hooks S C) (cfg : Cfg) (st : Stats)
+    (raw : Text) (call : List Strategy) :
+    (∀ e, (foldH env hk cfg st raw call).res = .raise e →
+      (∃ f, hk.pre = some f ∧ f raw = .raise e) ∨
+      (∃ g rep, hk.onMisfold = some g ∧ g rep = .raise e ∧
+        (foldH env hk cfg st raw call).hooks.getLast? = some (.misfold rep (.raise e)))) ∧
+    (∀ e, (foldXH env hk cfg st raw call).res = .raise e →
+      (∃ f, hk.pre = some f ∧ f raw = .raise e) ∨
+      (∃ g rep, hk.onMisfold = some g ∧ g rep = .raise e ∧
+        (foldXH env hk cfg st raw call).hooks.getLast? = some (.misfold rep (.raise e)))) ∧
+    ((∀ f, hk.pre = some f → ∃ t, f raw = .ok t) → (∀ g rep, hk.onMisfold = some g → g rep = .ok ()) →
+      (∃ p, (foldH env hk cfg st raw call).res = .ok p) ∧ (∃ x, (foldXH env hk cfg st raw call).res = .ok x)) := by
+  rcases foldH_cases env hk cfg st raw call with ⟨f, e, hp, hr, hH, hXH⟩ | ⟨t, hfeeds, _, _⟩
+  · refine ⟨?_, ?_, ?_⟩
+    · intro e' he'; rw [hH] at he'; cases he'; exact Or.inl ⟨f, hp, hr⟩
+    · intro e' he'; rw [hXH] at he'; cases he'; exact Or.inl ⟨f, hp, hr⟩
+    · intro hok _
+      obtain ⟨t, ht⟩ := hok f hp
+      rw [hr] at ht; cases ht
+  · obtain ⟨tr, st', p, x, _, _, _, _, _, _, _, hcase⟩ := foldHBoth_spec env hk cfg st raw t call hfeeds
+    rcases hcase with ⟨_, _, _, c, d⟩ | ⟨_, _, ⟨_, _, _, c, d⟩ | ⟨g, hg, a, b, c, d⟩⟩
+    · exact ⟨fun e he => (by rw [c] at he; cases he), fun e he => (by rw [d] at he; cases he), fun _ _ => ⟨⟨_, c⟩, ⟨_, d⟩⟩⟩
+    · exact ⟨fun e he => (by rw [c] at he; cases he), fun e he => (by rw [d] at he; cases he), fun _ _ => ⟨⟨_, c⟩, ⟨_, d⟩⟩⟩
+    · cases hgr : g (x.echo raw) with
+      | ok u =>
+        rw [hgr] at c d
+        exact ⟨fun e he => (by rw [c] at he; cases he), fun e he => (by rw [d] at he; cases he),
+          fun _ _ => ⟨⟨_, c⟩, ⟨_, d⟩⟩⟩
+      | raise e0 =>
+        rw [hgr] at a b c d
+        refine ⟨?_, ?_, ?_⟩
+        · intro e he; rw [c] at he; cases he
+          exact Or.inr ⟨g, x.echo raw, hg, hgr, by rw [a]; simp⟩
+        · intro e he; rw [d] at he; cases he
+          exact Or.inr ⟨g, x.echo raw, hg, hgr, by rw [b]; simp⟩
+        · intro _ hok
+          have := hok g (x.echo raw) hg
+          rw [hgr] at this; cases this
+
+example : (foldXH toyEnv toyHooksRaising (Cfg.new []) Stats.zero rawBad []).res = .raise (.other 6) ∧
+    (foldH toyEnv toyHooks (Cfg.new []) Stats.zero [63] []).res = .raise (.other 5) ∧
+    (foldH toyEnv toyHooks (Cfg.new []) Stats.zero [63] []).stats.total = 1 := ⟨rfl, rfl, rfl⟩
+
+/-- Statistics with callbacks: every call of `fold` / `fold_enhanced` counts as one fold, also when a callback raises
+    (the counter is incremented before the co-chaperone runs); the counters stay consistent (`successful_folds` is the
+    sum of the per-strategy successes, no strategy succeeded more often than it was attempted, successes ≤ folds);
+    and both methods leave the same counters. -/
+theorem c11_stats_with_callbacks (env : Env J S C) (hk : Hooks S C) (cfg : Cfg) (st : Stats)
+    (raw : Text) (call : List Strategy) :
+    (foldH env hk cfg st raw call).stats.total = st.total + 1 ∧
+    (foldXH env hk cfg st raw call).stats = (foldH env hk cfg st raw call).stats ∧
+    (st.Consistent → (foldH env hk cfg st raw call).stats.Consistent) := by
+  rcases foldH_cases env hk cfg st raw call with ⟨f, e, hp, hr, hH, hXH⟩ | ⟨t, hfeeds, _, _⟩
+  · rw [hH, hXH]
+    refine ⟨rfl, rfl, ?_⟩
+    intro ⟨h1, h2, h3⟩
+    exact ⟨h1, h2, by simp; omega⟩
+  · obtain ⟨tr, st', p, x, _, hx, _, h1, h2, _, _, _⟩ := foldHBoth_spec env hk cfg st raw t call hfeeds
+    rw [h1, h2]
+    have hstep := c11_stats_step env cfg st st' t call x (by rw [hx])
+    refine ⟨hstep.1, rfl, ?_⟩
+    intro hc
+    have := runOp_consistent env cfg st (.foldX t call) hc
+    simpa [runOp, statsOf, hx] using this
+
+/-- The plain and enhanced folds agree, with callbacks: on the same instance, raw text and strategies they invoke
+    the same callbacks with the same arguments in the same order, make the same library calls, leave the same
+    counters, raise the same exception if one of them raises, and otherwise agree on validity, structure and the
+    echoed raw text. -/
+theorem c11_plain_and_enhanced_agree_with_callbacks (env : Env J S C) (hk : Hooks S C) (cfg : Cfg) (st : Stats)
+    (raw : Text) (call : List Strategy) :
+    (foldH env hk cfg st raw call).hooks = (foldXH env hk cfg st raw call).hooks ∧
+    (foldH env hk cfg st raw call).trace = (foldXH env hk cfg st raw call).trace ∧
+    (foldH env hk cfg st raw call).stats = (foldXH env hk cfg st raw call).stats ∧
+    ((∃ e, (foldH env hk cfg st raw call).res = .raise e ∧ (foldXH env hk cfg st raw call).res = .raise e) ∨
+     (∃ p x, (foldH env hk cfg st raw call).res = .ok p ∧ (foldXH env hk cfg st raw call).res = .ok x ∧
+        p.valid = x.valid ∧ p.struct = x.struct ∧ p.raw = raw ∧ x.raw = raw)) := by
+  rcases foldH_cases env hk cfg st raw call with ⟨f, e, hp, hr, hH, hXH⟩ | ⟨t, hfeeds, _, _⟩
+  · rw [hH, hXH]; exact ⟨rfl, rfl, rfl, Or.inl ⟨e, rfl, rfl⟩⟩
+  · obtain ⟨tr, st', p, x, hp, hx, hpv, h1, h2, h3, h4, hcase⟩ := foldHBoth_spec env hk cfg st raw t call hfeeds
+    obtain ⟨_, st2, p2, x2, e1, e2, _, hss, _⟩ := c11_plain_and_enhanced_agree env cfg st t call
+    have hps : p.struct = x.struct := by
+      rw [hp] at e1; rw [hx] at e2; simp at e1 e2
+      obtain ⟨_, rfl⟩ := e1; obtain ⟨_, rfl⟩ := e2; exact hss
+    rw [h1, h2, h3, h4]
+    rcases hcase with ⟨_, a, b, c, d⟩ | ⟨_, _, ⟨_, a, b, c, d⟩ | ⟨g, hg, a, b, c, d⟩⟩
+    · exact ⟨by rw [a, b], rfl, rfl, Or.inr ⟨_, _, c, d, hpv, hps, rfl, rfl⟩⟩
+    · exact ⟨by rw [a, b], rfl, rfl, Or.inr ⟨_, _, c, d, hpv, hps, rfl, rfl⟩⟩
+    · refine ⟨by rw [a, b], rfl, rfl, ?_⟩
+      cases hgr : g (x.echo raw) with
+      | ok u => rw [hgr] at c d; exact Or.inr ⟨_, _, c, d, hpv, hps, rfl, rfl⟩
+      | raise e => rw [hgr] at c d; exact Or.inl ⟨e, c, d⟩
+
 /-! ## The tables and constants the model uses are the ones in the source (regenerated every run) -/
 
 /-- The extraction table, the repair table, the default strategy order, the members of `FoldingStrategy` and
